@@ -113,8 +113,9 @@ func (c *simCluster) createDataset(meta pb.Dataset) error {
 		for _, b := range c.nodes {
 			if a.id != b.id {
 				a.datasets[id].VerifSetDataManagerClient(b.id, &memDataManagerClient{to: b})
-				a.datasets[id].VerifSetSearchClient(b.id, &memSearchClient{to: b})
 			}
+			// a node searches its own partitions through its Search service as well
+			a.datasets[id].VerifSetSearchClient(b.id, &memSearchClient{to: b})
 		}
 	}
 	for i, p := range meta.Partitions {
